@@ -23,6 +23,7 @@ import (
 	"github.com/openGemini/openGemini/lib/record"
 	"github.com/openGemini/openGemini/lib/util/lifted/vm/protoparser/influx"
 	kit "github.com/openGemini/openGemini/lib/verifkit"
+	"go.uber.org/zap"
 )
 
 type c07Case struct {
@@ -123,9 +124,14 @@ type c07Runner struct {
 	tmpl []c07Tmpl
 	// frames[k] = the bytes WAL.Write produced for template k alone (header + snappy body)
 	frames [][]byte
+	images map[string][]byte
+	fr     *bufio.Reader
 }
 
-func (r *c07Runner) walLog() *logger.Logger { return logger.NewLogger(errno.ModuleWal) }
+// the torn-tail messages of 5*10^5 replays are not wanted in the shared log file
+func (r *c07Runner) walLog() *logger.Logger {
+	return logger.NewLogger(errno.ModuleWal).SetZapLogger(zap.NewNop())
+}
 
 // c07WriteImage writes the records through the real WAL and returns the bytes of the WAL file.
 func (r *c07Runner) writeImage(records []int) ([]byte, error) {
@@ -156,7 +162,11 @@ func (r *c07Runner) replay(w *WAL, image []byte, buf []byte) (delivered []string
 			pan = fmt.Sprintf("%v\n%s", p, c07Stack())
 		}
 	}()
-	fr := bufio.NewReaderSize(bytes.NewReader(image), 256*1024)
+	if r.fr == nil {
+		r.fr = bufio.NewReaderSize(bytes.NewReader(nil), 256*1024) // replayWalFile uses a reader of at least 256 KiB
+	}
+	fr := r.fr
+	fr.Reset(bytes.NewReader(image))
 	cb := func(wr *walRecord) error {
 		if wr.writeWalType == WriteWalLineProtocol {
 			delivered = append(delivered, "rows:"+c07RowsCanon(wr.rowsObjs.rows))
@@ -182,10 +192,16 @@ func (r *c07Runner) replay(w *WAL, image []byte, buf []byte) (delivered []string
 func (r *c07Runner) run(c *c07Case) {
 	rep := r.rep
 	rep.Eval(1)
-	image, err := r.writeImage(c.Records)
-	if err != nil {
-		rep.Violation("wal_write_error", c.key(), err.Error(), c)
-		return
+	ik := fmt.Sprint(c.Records)
+	image, ok := r.images[ik]
+	if !ok {
+		var err error
+		image, err = r.writeImage(c.Records)
+		if err != nil {
+			rep.Violation("wal_write_error", c.key(), err.Error(), c)
+			return
+		}
+		r.images = map[string][]byte{ik: image} // the image depends on the records only; keep the latest
 	}
 	// record boundaries from the templates' own frames; the image must be their concatenation
 	var ends []int
@@ -303,11 +319,11 @@ func TestVerifC07Wal(t *testing.T) {
 	item := 0
 	for l := 1; l <= maxRecs; l++ {
 		kit.Sequences(len(r.tmpl), l, func(seq []int) bool {
+			item++
+			if !kit.Mine(item) {
+				return true
+			}
 			for dirty := -1; dirty < len(r.tmpl); dirty++ {
-				item++
-				if !kit.Mine(item) {
-					continue
-				}
 				r.run(&c07Case{Seam: "wal", Records: append([]int(nil), seq...), Dirty: dirty, Cut: -1})
 			}
 			return !rep.Expired()
